@@ -587,8 +587,12 @@ Definition handle_clauses (s : srt) (o : line) (r : list bytes) : list bytes :=
   check (negb (accepted && dup)) "C17:duplicate-accepted" ++
   (* '{name:}' is another spelling of '{name}': same parse, different text - not "identical up to names" *)
   (let canonical (q : bytes) := match index q (bs ":}") with Some _ => false | None => true end in
-   check (negb (accepted && Nat.eqb (length (live s)) 1 && Nat.eqb (length twins) 1 && canonical p &&
-                forallb (fun pe => canonical (fst pe)) (live s))) "C17:twin-of-the-only-route-accepted") ++
+   if accepted && Nat.eqb (length (live s)) 1 && Nat.eqb (length twins) 1 && canonical p &&
+      forallb (fun pe => canonical (fst pe)) (live s)
+   then (* after a Remove/Clean the only route's nodes may still be split where a removed sibling branched off;
+           the segment-wise ambiguity check then misses the twin: listed finding F27 *)
+        if addonly s then [cl "C17:twin-of-the-only-route-accepted"] else [cl "known:twin-of-only-route-accepted-after-removal"]
+   else []) ++
   (match classify ic p with
    | PWf _ =>
      (* judged only while every live pattern is itself well-formed (e.g. /{-} is accepted by the code but
@@ -788,7 +792,8 @@ Definition oracle_rt (s s' : srt) (o : line) (r : list bytes) : list bytes :=
   let all := oracle_all s s' o r in
   if beqb (pid s) (bs "RT") then all
   else filter (fun c => has_prefix c (pid s) ||
-                        (has_prefix c (bs "known:late-header") && beqb (pid s) (bs "C08"))) all.
+                        (has_prefix c (bs "known:late-header") && beqb (pid s) (bs "C08")) ||
+                        (has_prefix c (bs "known:twin-of-only-route") && beqb (pid s) (bs "C17"))) all.
 
 (* ---- the specification side follows what the implementation accepted *)
 Definition absorb_rt (s : srt) (o : line) (r : list bytes) : srt :=
